@@ -1,10 +1,26 @@
-(** C04 -- tracing is transparent: the script computes what it would untraced.   PARTIAL:
-    proved here: what the traceback of RunResult contains (the three cleaning functions are the
-    GENERATED Gen/TbFuns.v) and that the debugger model never feeds back into the event stream;
-    NOT a theorem: equality of stdout / return value with the untraced execution -- "a trace function
-    only observes" is a CPython guarantee, validated differentially by harness/props/c04.py on
-    generated programs (this is the modelling ASSUMPTION of Bdb/Model.v made visible in
-    C04_commands_do_not_feed_back: the stream is an input of the run, not a function of the commands). *)
+(** C04 -- tracing is transparent: the script computes what it would untraced.   PARTIAL.
+
+    C04 is decided MAINLY BY THE DIFFERENTIAL RUNS of harness/props/c04.py: generated programs (and the
+    compile-flag / exec-environment sensitive family) executed by the real nextline.spawned.main and,
+    in the same interpreter, directly; standard output (whole and per thread/task), return value,
+    exception type/message and traceback frames are compared.  None of that is a theorem: "a trace
+    function only observes" is a CPython guarantee, not a consequence of anything proved here.
+
+    The small part that IS a theorem:
+      - what the three traceback-cleaning functions (GENERATED transcription Gen/TbFuns.v) do to the raw
+        tracebacks of the three shapes Tb/Model.v assumes to occur (runner frame + user traceback;
+        runner + pluggy + compose frames for a compile-time SyntaxError; runner + user stack +
+        WithContext... for a Ctrl-C during a line/return/exception trace call), over a six-letter alphabet
+        of frame classes.  C04_traceback_user_only's first clause, clean Ordinary (Runner :: u) = u, is
+        [reflexivity]: _remove_frame drops the head and nothing else applies.  Which raw shapes occur is
+        an assumption, validated by the cases.v comparison with fmt_exc on every run;
+      - C04_interrupt_at_call_refuted: the shape of a Ctrl-C during a CALL trace call is not cleaned
+        (known finding);
+      - C04_prompts_prefix_monotone: the debugger model is a transducer over a stream fixed in advance.
+        This is prefix-monotonicity of a fold for ONE policy -- true of any transducer.  It does NOT
+        prove that the script's behaviour is independent of the commands; it only makes the modelling
+        assumption of Bdb/Model.v visible: the event stream is an INPUT of the run, never a function of
+        the commands. *)
 From NL Require Import Tb.Model Tb.Proofs.
 From NL Require Bdb.Model Bdb.Causal.
 Open Scope list_scope.
@@ -36,7 +52,8 @@ Theorem C04_interrupt_at_call_refuted :
     existsb nextline_frame (clean KbdInterrupt (raw_kbd_call u mid inner)) = true.
 Proof. exists [User; User], [Plugin; Plugin; Plugin], [Plugin; Lib]. vm_compute. auto. Qed.
 
-Theorem C04_commands_do_not_feed_back : forall c pol evs later,
+(** prefix-monotonicity (one policy): what was prompted for [evs] is unchanged when the stream goes on *)
+Theorem C04_prompts_prefix_monotone : forall c pol evs later,
   exists rest_p rest_c,
     Bdb.Model.prompts c pol (evs ++ later) = Bdb.Model.prompts c pol evs ++ rest_p /\
     Bdb.Model.trace_calls c pol (evs ++ later) = Bdb.Model.trace_calls c pol evs ++ rest_c.
@@ -51,5 +68,5 @@ Proof. vm_compute. repeat split; reflexivity. Qed.
 
 Print Assumptions C04_traceback_user_only.
 Print Assumptions C04_no_nextline_frames.
-Print Assumptions C04_commands_do_not_feed_back.
+Print Assumptions C04_prompts_prefix_monotone.
 Print Assumptions C04_interrupt_at_call_refuted.
